@@ -102,6 +102,7 @@ type Conn struct {
 	readBuf        *bytes.Buffer
 	readLock       sync.Mutex
 	readReady      chan struct{}
+	readClosed     bool
 	writeLock      sync.Mutex
 	readDeadline   time.Time
 	s              *xmpp.Session
@@ -138,7 +139,7 @@ func newConn(h *Handler, s *xmpp.Session, iq openIQ, recv bool, maxBufSize int) 
 
 	return &Conn{
 		readBuf:        bytes.NewBuffer(make([]byte, 0, blockSize)),
-		readReady:      make(chan struct{}),
+		readReady:      make(chan struct{}, 1),
 		s:              s,
 		writeBuf:       bufio.NewWriterSize(b64Writer, int(blockSize)),
 		closeFlushFunc: b64Writer.Close,
@@ -174,10 +175,13 @@ func (c *Conn) Read(b []byte) (n int, err error) {
 	// In this case wait for a signal that there is more data to read.
 	// When the connection is closed this same signal is sent and our final read
 	// from the empty buffer will result in 0, io.EOF as expected.
-	if c.readBuf.Len() == 0 {
+	for c.readBuf.Len() == 0 {
 		c.readLock.Unlock()
-		<-c.readReady
+		_, open := <-c.readReady
 		c.readLock.Lock()
+		if !open {
+			break
+		}
 	}
 
 	return c.readBuf.Read(b)
@@ -265,8 +269,19 @@ func (c *Conn) Close() error {
 	if err != nil {
 		return err
 	}
-	close(c.readReady)
+	c.closeReadReady()
 	return respReadCloser.Close()
+}
+
+// closeReadReady wakes up any pending Read for the last time.
+// The read lock orders it with the notification sent when data arrives.
+func (c *Conn) closeReadReady() {
+	c.readLock.Lock()
+	defer c.readLock.Unlock()
+	if !c.readClosed {
+		c.readClosed = true
+		close(c.readReady)
+	}
 }
 
 func (c *Conn) closeNoNotify(t xmlstream.Encoder) error {
@@ -283,7 +298,7 @@ func (c *Conn) closeNoNotify(t xmlstream.Encoder) error {
 		return err
 	}
 
-	close(c.readReady)
+	c.closeReadReady()
 	return c.closeFlushFunc()
 }
 
